@@ -1,4 +1,6 @@
-//! Reproductions of the findings F1..F14 against the real crate (see DESIGN.md §7).
+//! Reproductions of the findings against the real crate (DESIGN.md §7).
+//!   repro                → prints what each historical finding F1..F14 does on the current tree
+//!   repro finding <id>   → REPRODUCED / NOT-REPRODUCED for one listed known finding
 use kcl_ezpz::datatypes::inputs::*;
 use kcl_ezpz::datatypes::{Angle, AngleKind};
 use kcl_ezpz::textual::Problem;
@@ -33,7 +35,100 @@ fn jac_entry(c: &Constraint, x: &[f64], row: usize, var: usize) -> f64 {
         .sum()
 }
 
+/// F5: the id in each guess pair is ignored.
+fn f5() -> bool {
+    let r = solve(&[hp(Constraint::Fixed(0, 7.0))], vec![(1, 100.0), (0, 5.0)], Config::default());
+    matches!(r, Ok(o) if o.final_values() == [7.0, 5.0])
+}
+
+fn circles() -> (DatumCircle, DatumCircle) {
+    (
+        DatumCircle { center: pt(0), radius: DatumDistance::new(4) },
+        DatumCircle { center: DatumPoint::new_xy(2, 3), radius: DatumDistance::new(5) },
+    )
+}
+
+/// F10: an analysis error at a non-first priority level changes which level is returned.
+fn f10() -> bool {
+    let (ca, cb) = circles();
+    let reqs = [
+        ConstraintRequest::new(Constraint::Fixed(6, 1.0), 0),
+        ConstraintRequest::new(Constraint::CircleTangentToCircle(ca, cb), 1),
+    ];
+    let g = guesses(&[1.0, 1.0, 1.0, 1.0, 2.0, 2.0, 1.0]);
+    let a = solve(&reqs, g.clone(), Config::default());
+    let b = solve_analysis(&reqs, g, Config::default());
+    match (a, b) {
+        (Ok(a), Ok(b)) => a.priority_solved() == 1 && b.outcome.priority_solved() == 0,
+        _ => false,
+    }
+}
+
+/// F11: a lower level that runs out of iterations under a small cap makes `solve` return the
+/// previous level as a success; a larger cap lets it converge and changes the answer.
+fn f11() -> bool {
+    let reqs = [
+        ConstraintRequest::new(Constraint::Fixed(0, 0.0), 0),
+        ConstraintRequest::new(Constraint::Fixed(1, 0.0), 0),
+        ConstraintRequest::new(Constraint::Distance(pt(0), pt(1), 5.0), 1),
+        ConstraintRequest::new(Constraint::Arc(DatumCircularArc { center: pt(0), start: pt(1), end: pt(2) }), 1),
+        ConstraintRequest::new(Constraint::Distance(pt(1), pt(2), 3.0), 1),
+    ];
+    let g = guesses(&[0.1, -0.2, 0.3, 0.2, -4.0, 9.0]);
+    let run = |cap: usize| solve(&reqs, g.clone(), Config::default().with_max_iterations(cap));
+    let mut small_p0 = None;
+    for cap in 1..40 {
+        match run(cap) {
+            Ok(o) if o.priority_solved() == 0 => small_p0 = Some(cap),
+            Ok(o) if o.priority_solved() == 1 => return small_p0.is_some(),
+            _ => {}
+        }
+    }
+    false
+}
+
+/// F12: a special-angle request outside the returned subset gets no lint warning.
+fn f12() -> bool {
+    let l0 = DatumLineSegment::new(pt(0), pt(1));
+    let l1 = DatumLineSegment::new(pt(2), pt(3));
+    let reqs = [
+        ConstraintRequest::new(Constraint::Fixed(0, 1.0), 0),
+        ConstraintRequest::new(Constraint::Fixed(0, 2.0), 0),
+        ConstraintRequest::new(
+            Constraint::LinesAtAngle(l0, l1, AngleKind::Other(Angle::from_degrees(90.0))),
+            1,
+        ),
+    ];
+    let r = solve(&reqs, guesses(&[0.0, 0.0, 1.0, 0.0, 0.0, 0.0, 0.0, 1.0]), Config::default());
+    matches!(r, Ok(o) if o.warnings().is_empty() && o.unsatisfied() == [0, 1])
+}
+
+/// F14: point-on-arc reported satisfied for a point on the circle but outside the arc's sweep.
+fn f14() -> bool {
+    let arc = DatumCircularArc { center: pt(0), start: pt(1), end: pt(2) };
+    let reqs = [hp(Constraint::PointArcCoincident(arc, pt(3)))];
+    let r = solve(&reqs, guesses(&[0.0, 0.0, 1.0, 0.0, 0.0, 1.0, -1.0, 0.0]), Config::default());
+    matches!(r, Ok(o) if o.unsatisfied().is_empty() && o.final_values()[6] == -1.0)
+}
+
 fn main() {
+    let args: Vec<String> = std::env::args().collect();
+    std::panic::set_hook(Box::new(|_| {}));
+    if args.len() >= 3 && args[1] == "finding" {
+        let r = match args[2].as_str() {
+            "F5-guess-ids-ignored" => f5(),
+            "F10-analysis-error-changes-level" => f10(),
+            "F11-cap-not-monotone-across-levels" => f11(),
+            "F12-no-lint-outside-returned-subset" => f12(),
+            "F14-point-on-arc-outside-sweep" => f14(),
+            other => {
+                println!("UNKNOWN-FINDING {other}");
+                std::process::exit(2);
+            }
+        };
+        println!("{}", if r { "REPRODUCED" } else { "NOT-REPRODUCED" });
+        return;
+    }
     // F1
     let c = Constraint::VerticalPointLineDistance(pt(0), DatumLineSegment::new(pt(1), pt(2)), 2.5);
     let x = [1.0, 5.0, 0.0, 0.5, 4.0, 1.5];
@@ -48,8 +143,7 @@ fn main() {
         println!("F2 var{var} fd={:.6} jac={:.6}", fd(&c, &x, 0, var), jac_entry(&c, &x, 0, var));
     }
     // F3
-    let ca = DatumCircle { center: pt(0), radius: DatumDistance::new(4) };
-    let cb = DatumCircle { center: DatumPoint::new_xy(2, 3), radius: DatumDistance::new(5) };
+    let (ca, cb) = circles();
     let reqs = [hp(Constraint::CircleTangentToCircle(ca, cb)), hp(Constraint::Fixed(6, 1.0))];
     let r = solve(&reqs, guesses(&[1.0, 1.0, 1.0, 1.0, 2.0, 1.0, 0.5]), Config::default());
     println!("F3 {:?}", r.map(|o| (o.final_values().to_vec(), o.iterations(), o.unsatisfied().to_vec())).map_err(|e| format!("{:?}", e.error)));
@@ -64,9 +158,7 @@ fn main() {
     ];
     let r = solve(&reqs, guesses(&[0.0, 0.0, 1.0, 1.0, 1.0, 1.0]), Config::default());
     println!("F4 {:?}", r.map(|o| (o.warnings().to_vec(), o.priority_solved())).map_err(|e| format!("{:?}", e.error)));
-    // F5
-    let r = solve(&[hp(Constraint::Fixed(0, 7.0))], vec![(1, 100.0), (0, 5.0)], Config::default());
-    println!("F5 {:?}", r.map(|o| o.final_values().to_vec()).map_err(|e| format!("{:?}", e.error)));
+    println!("F5 reproduced={}", f5());
     // F6
     let txt = "# constraints\npoint p\ncircle c\narc a\na.center.x = 5\n\n# guesses\np roughly (0, 0)\nc.center roughly (1, 1)\nc.radius roughly 2\na.center roughly (3, 3)\na.a roughly (4, 3)\na.b roughly (3, 4)\n";
     match Problem::from_str(txt) {
@@ -94,40 +186,12 @@ fn main() {
             ")".repeat(depth)
         );
         println!("F8 {:?}", Problem::from_str(&txt).map(|_| "parsed").map_err(|e| e.len()));
-        let txt = "# constraints\npoint p\npoint q\ndistance(p, q, sqrt(sqrt(16)))\n\n# guesses\np roughly (0, 0)\nq roughly (1, 1)\n";
-        println!("F8b {:?}", Problem::from_str(txt).map(|p| p.verif_dump()));
-        let txt = "# constraints\npoint p\npoint q\ndistance(p, q, sqrt(sqrt(16))\n\n# guesses\np roughly (0, 0)\nq roughly (1, 1)\n";
-        println!("F8c {:?}", Problem::from_str(txt).map(|p| p.verif_dump()));
     }
     // F9
     let r = solve_analysis(&[], guesses(&[1.0, 2.0]), Config::default());
     println!("F9 {:?}", r.map(|o| o.analysis.underconstrained().to_vec()).map_err(|e| format!("{:?}", e.error)));
-    // F10
-    let reqs = [
-        ConstraintRequest::new(Constraint::Fixed(6, 1.0), 0),
-        ConstraintRequest::new(Constraint::CircleTangentToCircle(ca, cb), 1),
-    ];
-    let g = guesses(&[1.0, 1.0, 1.0, 1.0, 2.0, 2.0, 1.0]);
-    let a = solve(&reqs, g.clone(), Config::default());
-    let b = solve_analysis(&reqs, g, Config::default());
-    println!(
-        "F10 solve={:?} analysis={:?}",
-        a.map(|o| (o.priority_solved(), o.final_values().to_vec())).map_err(|e| format!("{:?}", e.error)),
-        b.map(|o| (o.outcome.priority_solved(), o.outcome.final_values().to_vec())).map_err(|e| format!("{:?}", e.error))
-    );
-    // F12
-    let l0 = DatumLineSegment::new(pt(0), pt(1));
-    let l1 = DatumLineSegment::new(pt(2), pt(3));
-    let reqs = [
-        ConstraintRequest::new(Constraint::Fixed(0, 1.0), 0),
-        ConstraintRequest::new(Constraint::Fixed(0, 2.0), 0),
-        ConstraintRequest::new(Constraint::LinesAtAngle(l0, l1, AngleKind::Other(Angle::from_degrees(90.0))), 1),
-    ];
-    let r = solve(&reqs, guesses(&[0.0, 0.0, 1.0, 0.0, 0.0, 0.0, 0.0, 1.0]), Config::default());
-    println!("F12 {:?}", r.map(|o| (o.warnings().to_vec(), o.unsatisfied().to_vec())).map_err(|e| format!("{:?}", e.error)));
-    // F14
-    let arc = DatumCircularArc { center: pt(0), start: pt(1), end: pt(2) };
-    let reqs = [hp(Constraint::PointArcCoincident(arc, pt(3)))];
-    let r = solve(&reqs, guesses(&[0.0, 0.0, 1.0, 0.0, 0.0, 1.0, -1.0, 0.0]), Config::default());
-    println!("F14 {:?}", r.map(|o| (o.unsatisfied().to_vec(), o.iterations(), o.final_values().to_vec())).map_err(|e| format!("{:?}", e.error)));
+    println!("F10 reproduced={}", f10());
+    println!("F11 reproduced={}", f11());
+    println!("F12 reproduced={}", f12());
+    println!("F14 reproduced={}", f14());
 }
